@@ -62,7 +62,10 @@ Reset ==
 \* msg
 M    == FoldMsg(e.m)
 Obs  == [rc |-> e.rc, rrs |-> FoldRRs(e.rrs), ser |-> e.ser]
-Outs == Outcomes(S, M, apex)
+\* (journal runs, event field lock: another connection held the write lock of the journal while the
+\* message was processed -- Journal!LockHeld; the server may then refuse it with SERVFAIL, nothing
+\* applied)
+Outs == Outcomes(S, M, apex) \cup (IF Has("lock") /\ e.lock THEN Rejects(S, {"SERVFAIL"}) ELSE {})
 
 MsgOK ==
     /\ \E o \in Outs : Realises(S, o, Obs.rc, Obs.rrs, Obs.ser)
